@@ -40,7 +40,7 @@ def wfApply (s : St) : WfOp → St × Res
   | .pause => if isPaused s then (s, .noop) else wfSetState s .PAUSED
   | .resume => if !isPausedOrIdle s then (s, .noop) else wfSetState s .RUNNING
   | .stop .SUCCESS => wfSetState s .SUCCESS
-  | .stop .ERROR => if isPausedOrCompleted s then (s, .noop) else wfSetState s .ERROR
+  | .stop .ERROR => if isCompleted s then (s, .noop) else wfSetState s .ERROR
   | .stop .CANCELLED => if isCompleted s then (s, .noop) else wfSetState s .CANCELLED
   | .stop _ => (s, .noop)
   | .complete o =>
